@@ -76,9 +76,11 @@ def str_method(it, o, name):
             if name == 'replace':
                 raise Unsupported('symbolic str.replace (replace_all)')
             if name in ('lower', 'upper', 'casefold'):
-                f = z3.Function('str_' + ('lower' if name != 'upper' else 'upper'), z3.StringSort(), z3.StringSort())
+                # three different functions: casefold is NOT lower ('ß'.casefold() == 'ss', ligatures are expanded) and not length preserving
+                f = z3.Function('str_' + name, z3.StringSort(), z3.StringSort())
                 r = f(t)
-                it2.ctx.assume(z3.Length(r) == z3.Length(t))     # A-lower: length preserving (true outside a few Unicode specials)
+                if name != 'casefold':
+                    it2.ctx.assume(z3.Length(r) == z3.Length(t))     # A-lower: length preserving (true outside a few Unicode specials)
                 return Sym(r, 'str')
             if name == 'removeprefix':
                 p = z3str(a[0])
